@@ -125,6 +125,9 @@ func (cache *HevcCache) getPalyloadType(payload []byte) (vps, sps, pps, islice b
 		off := 2
 		// 循环读取被封装的NAL
 		for {
+			if off+2 > len(payload) { // 聚合包被截断
+				return
+			}
 			// nal长度
 			nalSize := ((uint16(payload[off])) << 8) | uint16(payload[off+1])
 			if nalSize < 1 {
@@ -132,6 +135,9 @@ func (cache *HevcCache) getPalyloadType(payload []byte) (vps, sps, pps, islice b
 			}
 
 			off += 2
+			if off >= len(payload) { // 聚合包被截断
+				return
+			}
 			naluType = (payload[off] >> 1) & 0x3f
 			cache.nalType(naluType, &vps, &sps, &pps, &islice)
 			off += int(nalSize)
